@@ -468,7 +468,7 @@ def _tagmarkup_recurse(tm, attr):
         ral = []
         for element in tm:
             tl, al = _tagmarkup_recurse(element, attr)
-            if ral:
+            if ral and al:
                 # merge attributes when possible
                 last_attr, last_run = ral[-1]
                 top_attr, top_run = al[0]
@@ -490,8 +490,8 @@ def _tagmarkup_recurse(tm, attr):
     if not isinstance(tm, (str, bytes)):
         raise TagMarkupException(f"Invalid markup element: {tm!r}")
 
-    # text
-    return [tm], [(attr, len(tm))]
+    # text; an empty fragment has no attribute run (a run of length zero would cut off the runs after it)
+    return [tm], ([(attr, len(tm))] if tm else [])
 
 
 def is_mouse_event(ev: tuple[str, int, int, int] | typing.Any) -> bool:
